@@ -8,11 +8,12 @@ def register(R):
     R.module(ST)
     R.shape("FutureModel", cls="Future", fields={"pending": "bool", "exception_set": "bool", "result_set": "bool", "owner": "none", "member": "bool", "cb": "none", "value": "opt[int]"})
     R.shape("FutureDequeModel", cls="FutureDeque", fields={"n": "int", "pending": "int", "rest": "int", "mine": "none"})
-    R.ghost(stranded="int")
+    R.ghost(stranded="int", futures_awaited="int")
     R.shape("EventLoopModel", cls="EventLoop", fields={})
     R.external("traceback.clear_frames", "stubs.stdlib.noop")
     R.module("easynetwork/lowlevel/api_async/backend/_asyncio/tasks.py")
-    R.contract("TaskUtils.coro_yield", trusted=True, ensures=["True"], raises={"asyncio.CancelledError": ["True"]})
+    # a @types.coroutine generator, not an `async def`: still a suspension point (other tasks and callbacks run there)
+    R.contract("TaskUtils.coro_yield", trusted=True, ensures=["True"], raises={"asyncio.CancelledError": ["True"]}, env={"suspends": True})
     R.module("easynetwork/lowlevel/api_async/backend/_asyncio/_flow_control.py")
     W = "self.__drain_waiters"
     J = [
@@ -51,12 +52,14 @@ def register(R):
            ("own-waiter-not-left-behind-as-a-pending-member", f"implies(not isnone({W}.mine), not {W}.mine.member or not {W}.mine.pending)", "C20")]
     R.contract(
         "WriteFlowControl.drain",
-        ensures=[("a-drain-has-returned", "ghost.drained_since_write", "C20")] + Jpost + own,
+        ensures=[("a-drain-has-returned", "ghost.drained_since_write", "C20"),
+                 ("a-sender-that-did-not-have-to-wait-returns-normally-only-if-the-connection-is-not-known-to-be-lost (otherwise: the connection error)",
+                  "implies(ghost.futures_awaited == old(ghost.futures_awaited), not self.__connection_lost)", "C20")] + Jpost + own,
         raises={
             "OSError": [("lost-connection-is-reported-to-the-sender", "True", "C20")] + Jpost + own,
             "BaseException": [("cancellation-or-failure-while-suspended", "True", "C20")] + Jpost + own,
         },
-        modifies=mods + [f"{W}.mine", "ghost.drained_since_write", "ghost.stranded"],
+        modifies=mods + [f"{W}.mine", "ghost.drained_since_write", "ghost.stranded", "ghost.futures_awaited"],
         env={
             "ghost_on_return": {"drained_since_write": "True"},
             "atomic_inv": J,
